@@ -1,7 +1,20 @@
 import TracklibVerif.Model.Graph
 import Mathlib.Algebra.Order.Monoid.Defs
 namespace TV.Graph
-variable {W : Type} [AddCommMonoid W] [LinearOrder W] [IsOrderedAddMonoid W]
+/-- All that the proofs about `run_routing_forward` use of `+` and `0` (on top of `≤` being a linear order): adding a
+non-negative weight does not decrease a label, and addition on the right is monotone. Neither associativity,
+commutativity, cancellation nor `a + 0 = a` is needed, because the code and `Walk` both add the weights of a walk from the
+source outwards, `((0 + w₁) + w₂) + …`. Every linearly ordered additive commutative monoid (`ℕ ℤ ℚ ℝ`, …) is an instance;
+so is IEEE-754 round-to-nearest addition on the non-NaN doubles (rounding is monotone), which is *not* associative. -/
+class WalkAdd (W : Type) [LinearOrder W] [Add W] [Zero W] : Prop where
+  le_add_right : ∀ (a w : W), 0 ≤ w → a ≤ a + w
+  add_le_add : ∀ (a b w : W), a ≤ b → a + w ≤ b + w
+
+instance instWalkAddOfMonoid {W : Type} [AddCommMonoid W] [LinearOrder W] [IsOrderedAddMonoid W] : WalkAdd W where
+  le_add_right := fun _ _ h => le_add_of_nonneg_right h
+  add_le_add := fun _ _ w h => add_le_add_left h w
+
+variable {W : Type} [LinearOrder W] [Add W] [Zero W] [WalkAdd W]
 
 /-- a permitted arc u → v of weight w -/
 def Arc (net : Net W) (u v : Nat) (w : W) : Prop :=
@@ -124,7 +137,7 @@ theorem popMinAux_spec (st : St W) (k : Nat) :
 end TV.Graph
 
 namespace TV.Graph
-variable {W : Type} [AddCommMonoid W] [LinearOrder W] [IsOrderedAddMonoid W]
+variable {W : Type} [LinearOrder W] [Add W] [Zero W] [WalkAdd W]
 
 /-- what one relaxation does -/
 theorem relaxOne_spec (u : Nat) (du : W) (st : St W) (e : Edge W) :
@@ -226,7 +239,7 @@ theorem relaxAll_spec (u : Nat) (du : W) (es : List (Edge W)) (st : St W) :
 end TV.Graph
 
 namespace TV.Graph
-variable {W : Type} [AddCommMonoid W] [LinearOrder W] [IsOrderedAddMonoid W]
+variable {W : Type} [LinearOrder W] [Add W] [Zero W] [WalkAdd W]
 
 structure Inv (net : Net W) (s : Nat) (st : St W) : Prop where
   j1 : st.d s = some 0
@@ -300,12 +313,12 @@ theorem inv_step (net : Net W) (hnet : WFNet net) (s : Nat) (st st' : St W)
       have hzv : st.vis z = false := by rw [vis' z] at hz; simpa [hzu] using hz
       rcases lab z y' hd with h | ⟨w, ha, h2, _⟩
       · exact hu_min z y' (hinv.j6 z y' h) hzv h
-      · rw [h2]; exact le_add_of_nonneg_right (arc_wf hnet ha).2
+      · rw [h2]; exact WalkAdd.le_add_right _ _ (arc_wf hnet ha).2
     have j7' : ∀ v y, st'.d v = some y → 0 ≤ y := by
       intro v y hd
       rcases lab v y hd with h | ⟨w, ha, h2, _⟩
       · exact hinv.j7 v y h
-      · rw [h2]; exact add_nonneg hdu0 (arc_wf hnet ha).2
+      · rw [h2]; exact le_trans hdu0 (WalkAdd.le_add_right _ _ (arc_wf hnet ha).2)
     refine ⟨?_, ?_, ?_, ?_, ?_, ?_, j7'⟩
     · -- j1
       obtain ⟨y', h1, h2⟩ := r3 s 0 hinv.j1
@@ -318,12 +331,12 @@ theorem inv_step (net : Net W) (hnet : WFNet net) (s : Nat) (st st' : St W)
         · -- v visited in st' : its label is ≤ du
           by_cases hvu : v = x
           · subst hvu
-            exact ⟨du, du, hu', hu', le_add_of_nonneg_right (arc_wf hnet ha).2⟩
+            exact ⟨du, du, hu', hu', WalkAdd.le_add_right _ _ (arc_wf hnet ha).2⟩
           · have hv_old : st.vis v = true := by rw [vis' v] at hvv; simpa [hvu] using hvv
             obtain ⟨yv, hyv⟩ := hinv.j5 v hv_old
             have : yv ≤ du := hinv.j4 v yv hv_old hyv x du hu_vis hu_d
             refine ⟨du, yv, hu', by rw [old_vis v hv_old]; exact hyv, ?_⟩
-            exact le_trans this (le_add_of_nonneg_right (arc_wf hnet ha).2)
+            exact le_trans this (WalkAdd.le_add_right _ _ (arc_wf hnet ha).2)
         · have hvv' : st'.vis v = false := by cases h : st'.vis v <;> simp_all
           obtain ⟨e, he, ho, hw⟩ := (arc_iff_next net x v w).1 ha
           have hv1 : st1.vis (other e x) = false := by
@@ -363,7 +376,7 @@ theorem inv_step (net : Net W) (hnet : WFNet net) (s : Nat) (st st' : St W)
 end TV.Graph
 
 namespace TV.Graph
-variable {W : Type} [AddCommMonoid W] [LinearOrder W] [IsOrderedAddMonoid W]
+variable {W : Type} [LinearOrder W] [Add W] [Zero W] [WalkAdd W]
 
 theorem run_inv (net : Net W) (hnet : WFNet net) (s : Nat) (f : Nat) (st : St W)
     (hinv : Inv net s st) : Inv net s (run net f st) := by
@@ -402,7 +415,7 @@ theorem labels_are_distances (net : Net W) (s : Nat) (st : St W)
     have hvis := settled_of_done net st hdone v (hinv.j6 v y hy) y hy
     obtain ⟨x, y', hx, hy', hle⟩ := hinv.j2 v hvis t w ha
     rw [hy] at hx; cases hx
-    exact ⟨y', hy', le_trans hle (add_le_add_left hyc w)⟩
+    exact ⟨y', hy', le_trans hle (WalkAdd.add_le_add _ _ w hyc)⟩
 
 /-- unreachable ⇔ sentinel -/
 theorem unlabelled_iff_unreachable (net : Net W) (s : Nat) (st : St W)
@@ -420,7 +433,7 @@ theorem unlabelled_iff_unreachable (net : Net W) (s : Nat) (st : St W)
 end TV.Graph
 
 namespace TV.Graph
-variable {W : Type} [AddCommMonoid W] [LinearOrder W] [IsOrderedAddMonoid W]
+variable {W : Type} [LinearOrder W] [Add W] [Zero W] [WalkAdd W]
 
 /-- number of unsettled nodes below k -/
 def cnt (st : St W) : Nat → Nat
